@@ -618,6 +618,58 @@ theorem sortedInts_pairwise : ∀ d : List Int, sortedInts d = true → d.Pairwi
     · exact h.1
     · exact Int.le_trans h.1 (List.rel_of_pairwise_cons ih hc)
 
+theorem sortedInts_tail (a : Int) (t : List Int) (h : sortedInts (a :: t) = true) : sortedInts t = true := by
+  cases t with
+  | nil => rfl
+  | cons b u => simp only [sortedInts, Bool.and_eq_true] at h; exact h.2
+
+theorem sortedIn_tail (asc : Bool) (a : Int) (t : List Int) (h : sortedIn asc (a :: t) = true) : sortedIn asc t = true := by
+  cases asc
+  · simp only [sortedIn, Bool.false_eq_true, if_false, List.map_cons] at h ⊢
+    exact sortedInts_tail _ _ h
+  · simp only [sortedIn, if_true] at h ⊢
+    exact sortedInts_tail _ _ h
+
+/-- head of an ascending (descending) list bounds every later entry -/
+theorem sortedIn_head (asc : Bool) (a : Int) (t : List Int) (h : sortedIn asc (a :: t) = true) :
+    ∀ c ∈ t, if asc then a ≤ c else c ≤ a := by
+  cases asc
+  · simp only [sortedIn, Bool.false_eq_true, if_false, List.map_cons] at h ⊢
+    intro c hc
+    have := List.rel_of_pairwise_cons (sortedInts_pairwise _ h) (List.mem_map_of_mem (f := fun x : Int => -x) hc)
+    omega
+  · simp only [sortedIn, if_true] at h ⊢
+    exact fun c hc => List.rel_of_pairwise_cons (sortedInts_pairwise _ h) hc
+
+/-- the guard the code checks implies that ALL pairs of partitions (not only neighbours) are
+    separated in the requested order -/
+theorem presorted_nonoverlap (asc : Bool) : ∀ bs : List (Int × Int), presorted asc bs = true →
+    bs.Pairwise (fun b₁ b₂ => if asc then b₁.2 < b₂.1 else b₂.2 < b₁.1)
+  | [], _ => List.Pairwise.nil
+  | [_], _ => by simp
+  | b :: n :: t, h => by
+    simp only [presorted, Bool.and_eq_true, List.map_cons] at h
+    obtain ⟨⟨hmin, hmax⟩, hadj⟩ := h
+    simp only [adjOK, Bool.and_eq_true] at hadj
+    have ih := presorted_nonoverlap asc (n :: t) (by
+      simp only [presorted, Bool.and_eq_true, List.map_cons]
+      exact ⟨⟨sortedIn_tail asc _ _ hmin, sortedIn_tail asc _ _ hmax⟩, hadj.2⟩)
+    refine List.pairwise_cons.mpr ⟨?_, ih⟩
+    intro c hc
+    have hmin' := sortedIn_head asc n.1 (t.map (·.1)) (sortedIn_tail asc _ _ hmin)
+    have hmax' := sortedIn_head asc n.2 (t.map (·.2)) (sortedIn_tail asc _ _ hmax)
+    cases asc
+    · simp only [Bool.false_eq_true, if_false, decide_eq_true_eq] at hadj hmax' ⊢
+      rcases List.mem_cons.mp hc with rfl | hc
+      · exact hadj.1
+      · have := hmax' c.2 (List.mem_map_of_mem (f := fun q : Int × Int => q.2) hc)
+        omega
+    · simp only [if_true, decide_eq_true_eq] at hadj hmin' ⊢
+      rcases List.mem_cons.mp hc with rfl | hc
+      · exact hadj.1
+      · have := hmin' c.1 (List.mem_map_of_mem (f := fun q : Int × Int => q.1) hc)
+        omega
+
 end SortSec
 
 /-! ## split_out: group-wise aggregation after a hash split -/
